@@ -63,4 +63,25 @@ PROPS = {
         "components": {"real": REAL, "stub": STUB_COMMON},
         "assumptions": ["what RemFact returns for an id that does not exist is not judged", "dependents of an item that has expired but was not yet observed are don't-cares until it is observed"],
     },
+    "C06": {
+        "level": "fault_enumeration",
+        "build": "plain",
+        "tiers": tiers(260, 70, 9000, 1200),
+        "exhaustive_claim": False,
+        "distinct_measure": "distinct (fault kind, storage call index, history) triples executed plus distinct (operation, canonical model state) pairs",
+        "rule": "world enum: histories of 3-9 operations (AddFact with ttl/expires/deleteWith, RemFact with cascades, AddRule, RemRule, EnableRule, SetParents, "
+                "SetProp, Clear, clock advance) over a 4-id space, state x storage in {indexed,linear} x {mem,bolt file}; the fault-free run checks, after every "
+                "operation, that a second Location built from the same storage answers like the live one (ids, contents, expires, search battery, rule "
+                "battery) and counts the W storage calls; then the history is re-executed once for EVERY call index k < W and each of crash-before, "
+                "crash-after-apply, error-before-apply, error-after-apply (exhaustive per history: evidence counts histories and fault points). After a "
+                "crash only durable content survives (Bolt: a copy of the file at that call boundary is reopened): acknowledged operations must be "
+                "reflected, ids named by the interrupted operation are old or new, nothing else changed. After an injected failure the API operation "
+                "must return an error. World sampled: longer histories with reloads and up to 2 random faults. World handback: Bolt, reload, then a "
+                "burst of 80-240 KB of writes (file remap) and a search whose returned JSON must still be the stored facts (a worker death is a violation). "
+                "Non-trivial: a fault fired inside an operation; distinct as stated in distinct_measure.",
+        "components": {"real": REAL + ["storage/bolt.BoltStorage over a real file (tmp dir)"], "stub": STUB_COMMON + ["process death = unwinding the single client with a private panic at a storage call boundary, then dropping every live object"]},
+        "assumptions": ["a storage call is the unit of durability (each BoltStorage call is one committed Bolt transaction); tearing inside a Bolt commit is Bolt's contract and is not simulated",
+                        "single client (no concurrent requests); crash points are storage call boundaries",
+                        "after a failed or interrupted operation the ids it names are don't-cares until rewritten"],
+    },
 }
